@@ -114,3 +114,98 @@ pub fn run(tier: &str, seed: u64, out: &mut Out) {
         out.case(&["path_dep", kinds[kind], &enc(&b), &enc(&w)], &res);
     }
 }
+
+// ---------------------------------------------------------------- linking (rendered under node)
+
+/// small multi-file groups in several insertion orders: which file's template / include / script a
+/// reference reaches when the bundle is executed
+pub fn run_links(tier: &str, seed: u64, out: &mut Out) {
+    use glass_easel_template_compiler::TmplGroup;
+    let mut rng = Rng::new(seed ^ 0x11f);
+    let n = if tier == "thorough" { 600 } else { 80 };
+    // registered paths (normalised) and how a referrer at `pages/main` may spell them
+    let targets: [(&str, &[&str]); 4] = [
+        ("pages/x", &["x", "./x", "x.wxml", "/pages/x", "../pages/x", "./a/../x", "/pages/./x.wxml"]),
+        ("pages/sub/y", &["sub/y", "./sub/y.wxml", "/pages/sub/y", "sub/../sub/y", "sub/./y"]),
+        ("z", &["../z", "/z", "/z.wxml", "../../z", "./../z", "/a/../z"]),
+        ("lib/w", &["../lib/w", "/lib/w", "/lib/w.wxml", "../lib/./w"]),
+    ];
+    let names = ["t", "u", "v"];
+    for gi in 0..n {
+        let main_path = "pages/main";
+        // which names each file defines
+        let mut files: Vec<(String, String, Vec<&str>)> = vec![]; // (path, source, defs)
+        for (tp, _) in targets.iter() {
+            let defs: Vec<&str> = names.iter().cloned().filter(|_| rng.chance(1, 2)).collect();
+            let mut src = String::new();
+            for d in &defs {
+                src.push_str(&format!("<template name=\"{}\">[{}@{}]</template>", d, d, tp));
+            }
+            src.push_str(&format!("(inc@{})", tp));
+            files.push((tp.to_string(), src, defs));
+        }
+        let local: Vec<&str> = names.iter().cloned().filter(|_| rng.chance(1, 4)).collect();
+        let k = rng.below(4);
+        let mut imports: Vec<String> = vec![];
+        let mut main_src = String::new();
+        for d in &local {
+            main_src.push_str(&format!("<template name=\"{}\">[{}@{}]</template>", d, d, main_path));
+        }
+        for _ in 0..k {
+            let (_, spellings) = targets[rng.below(targets.len())];
+            let s = rng.pick(spellings).to_string();
+            main_src.push_str(&format!("<import src=\"{}\"/>", s));
+            imports.push(s);
+        }
+        let inc = { let (_, sp) = targets[rng.below(targets.len())]; rng.pick(sp).to_string() };
+        main_src.push_str(&format!("<include src=\"{}\"/>", inc));
+        let (script_path, script_spellings): (&str, &[&str]) = *rng.pick(&[("pages/s", &["s.wxs", "./s", "/pages/s.wxs", "../pages/s"][..]), ("lib/s", &["../lib/s.wxs", "/lib/s", "../lib/./s"][..])]);
+        let wxs = rng.pick(script_spellings).to_string();
+        main_src.push_str(&format!("<wxs module=\"m\" src=\"{}\"/>{{{{ m.id }}}}", wxs));
+        for nm in names {
+            main_src.push_str(&format!("<template is=\"{}\"/>", nm));
+        }
+        files.push((main_path.to_string(), main_src.clone(), local.clone()));
+        let scripts = vec![("pages/s".to_string(), "exports.id = 's@pages/s'".to_string()), ("lib/s".to_string(), "exports.id = 's@lib/s'".to_string())];
+        // insertion orders
+        let orders: Vec<Vec<usize>> = {
+            let mut v = vec![(0..files.len()).collect::<Vec<_>>(), (0..files.len()).rev().collect::<Vec<_>>()];
+            for _ in 0..2 {
+                let mut o: Vec<usize> = (0..files.len()).collect();
+                for i in (1..o.len()).rev() {
+                    let j = rng.below(i + 1);
+                    o.swap(i, j);
+                }
+                v.push(o);
+            }
+            v
+        };
+        let mut bundles = vec![];
+        for (oi, o) in orders.iter().enumerate() {
+            let mut tg = TmplGroup::new();
+            if oi % 2 == 0 {
+                for (p, s) in &scripts {
+                    tg.add_script(p, s);
+                }
+            }
+            for &i in o {
+                tg.add_tmpl(&files[i].0, &files[i].1);
+            }
+            if oi % 2 == 1 {
+                for (p, s) in scripts.iter().rev() {
+                    tg.add_script(p, s);
+                }
+            }
+            bundles.push(tg.get_tmpl_gen_object_groups().unwrap_or_default());
+        }
+        let reg: Vec<String> = files.iter().map(|(p, _, d)| format!("{}:{}", enc(p), d.iter().map(|x| enc(x)).collect::<Vec<_>>().join("+"))).collect();
+        let job = serde_json::json!({
+            "kind": "links", "id": gi, "main": main_path, "src": main_src, "bundles": bundles,
+            "model_args": [enc(main_path), local.iter().map(|x| enc(x)).collect::<Vec<_>>().join("+"),
+                           imports.iter().map(|x| enc(x)).collect::<Vec<_>>().join("+"), reg.join(";")],
+            "include": [enc(main_path), enc(&inc)], "wxs": [enc(main_path), enc(&wxs)], "script_registered": script_path,
+            "files": files.iter().map(|(p, s, _)| (p.clone(), s.clone())).collect::<Vec<_>>(),
+        });
+        out.raw(&job.to_string());
+    }
+}
